@@ -18,6 +18,10 @@ pub struct Spec {
     pub via_tilemap: bool,
     /// flag word of the source layer (3 = visible + editable)
     pub flags: u16,
+    /// bit 0: the backdrop cel is one pixel larger than the canvas on the top and left and sits
+    /// at (-1,-1); bit 1: the same for the source cel; bit 2: both also overhang by two pixels
+    /// on the bottom and right.  The on-canvas pixels are the same in every case.
+    pub pad: u8,
 }
 
 pub fn sprite(mode: u16, sp: &Spec) -> Vec<u8> {
@@ -31,7 +35,31 @@ pub fn sprite(mode: u16, sp: &Spec) -> Vec<u8> {
     f.frames[0].push(Body::Layer(top));
     let bb: Vec<u8> = sp.b.iter().flat_map(|p| p.to_le_bytes()).collect();
     let sb: Vec<u8> = sp.s.iter().flat_map(|p| p.to_le_bytes()).collect();
-    f.frames[0].push(gen::raw_cel(0, 0, 0, 255, sp.w, sp.h, bb));
+    // a cel that overhangs the canvas: junk pixels outside, the given pixels on the canvas
+    let padded = |px: &[u8]| -> (i16, u16, u16, Vec<u8>) {
+        let far = if sp.pad & 4 != 0 { 2usize } else { 0 };
+        let (w, h) = (sp.w as usize, sp.h as usize);
+        let (pw, ph) = (w + 1 + far, h + 1 + far);
+        let mut out = vec![0u8; pw * ph * 4];
+        for y in 0..ph {
+            for x in 0..pw {
+                let o = (y * pw + x) * 4;
+                if x >= 1 && y >= 1 && x <= w && y <= h {
+                    let i = ((y - 1) * w + (x - 1)) * 4;
+                    out[o..o + 4].copy_from_slice(&px[i..i + 4]);
+                } else {
+                    out[o..o + 4].copy_from_slice(&[(x * 37 + 11) as u8, (y * 91 + 3) as u8, 0x5A, 200 + ((x + y) % 56) as u8]);
+                }
+            }
+        }
+        (-1, pw as u16, ph as u16, out)
+    };
+    if sp.pad & 1 != 0 {
+        let (o, pw, ph, data) = padded(&bb);
+        f.frames[0].push(gen::raw_cel(0, o, o, 255, pw, ph, data));
+    } else {
+        f.frames[0].push(gen::raw_cel(0, 0, 0, 255, sp.w, sp.h, bb));
+    }
     if sp.via_tilemap {
         // tile i is the 1x1 tile holding source pixel i; the map lists the tiles in order
         let n = sp.s.len() as u32;
@@ -43,6 +71,9 @@ pub fn sprite(mode: u16, sp: &Spec) -> Vec<u8> {
             l.tileset = 7;
         }
         f.frames[0].push(gen::tm_cel(1, 0, 0, sp.co, sp.w, sp.h, (0..n).collect()));
+    } else if sp.pad & 2 != 0 {
+        let (o, pw, ph, data) = padded(&sb);
+        f.frames[0].push(gen::raw_cel(1, o, o, sp.co, pw, ph, data));
     } else {
         f.frames[0].push(gen::raw_cel(1, 0, 0, sp.co, sp.w, sp.h, sb));
     }
@@ -192,7 +223,7 @@ pub fn families(tier: Tier) -> Vec<Family> {
             modes: all.clone(),
             build: Box::new(move |i| {
                 let (b, s) = channel_grid(p[i].0, p[i].1);
-                Spec { w: 256, h: 256, b, s, lo: 255, co: 255, via_tilemap: false, flags: 3 }
+                Spec { w: 256, h: 256, b, s, lo: 255, co: 255, via_tilemap: false, flags: 3, pad: 0 }
             }),
         });
     }
@@ -207,7 +238,7 @@ pub fn families(tier: Tier) -> Vec<Family> {
             modes: all.clone(),
             build: Box::new(move |i| {
                 let (b, s) = small_grid();
-                Spec { w: 72, h: 72, b, s, lo: ops[i].0, co: ops[i].1, via_tilemap: false, flags: 3 }
+                Spec { w: 72, h: 72, b, s, lo: ops[i].0, co: ops[i].1, via_tilemap: false, flags: 3, pad: 0 }
             }),
         });
     }
@@ -222,7 +253,7 @@ pub fn families(tier: Tier) -> Vec<Family> {
                 let al = [(255u8, 255u8), (128, 255), (255, 128), (1, 1)];
                 let (b, s) = lattice_grid(&[0, 1, 127, 128, 255], &al[i..i + 1]);
                 let (w, h) = shape(b.len());
-                Spec { w, h, b, s, lo: 255, co: 255, via_tilemap: false, flags: 3 }
+                Spec { w, h, b, s, lo: 255, co: 255, via_tilemap: false, flags: 3, pad: 0 }
             }),
         });
     }
@@ -237,7 +268,7 @@ pub fn families(tier: Tier) -> Vec<Family> {
                 let al = [(255u8, 255u8), (128, 200), (200, 77)];
                 let (b, s) = lattice_grid(&[0, 36, 73, 109, 146, 182, 219, 255], &al[i..i + 1]);
                 let (w, h) = shape(b.len());
-                Spec { w, h, b, s, lo: 255, co: [255u8, 254, 100][i], via_tilemap: false, flags: 3 }
+                Spec { w, h, b, s, lo: 255, co: [255u8, 254, 100][i], via_tilemap: false, flags: 3, pad: 0 }
             }),
         });
     }
@@ -252,7 +283,7 @@ pub fn families(tier: Tier) -> Vec<Family> {
             modes: all.clone(),
             build: Box::new(move |i| {
                 let (b, s) = small_grid();
-                Spec { w: 72, h: 72, b, s, lo: ops[i].0, co: ops[i].1, via_tilemap: true, flags: 3 }
+                Spec { w: 72, h: 72, b, s, lo: ops[i].0, co: ops[i].1, via_tilemap: true, flags: 3, pad: 0 }
             }),
         });
     }
@@ -269,7 +300,24 @@ pub fn families(tier: Tier) -> Vec<Family> {
             build: Box::new(move |i| {
                 let (b, s) = small_grid();
                 let (lo, co) = ops[i % ops.len()];
-                Spec { w: 72, h: 72, b, s, lo, co, via_tilemap: false, flags: fl[i / ops.len()] }
+                Spec { w: 72, h: 72, b, s, lo, co, via_tilemap: false, flags: fl[i / ops.len()], pad: 0 }
+            }),
+        });
+    }
+    // Q7: cels that overhang the canvas (negative offsets): clipping must not change blending
+    {
+        let ops: Vec<(u8, u8)> = vec![(255, 255), (200, 77), (255, 0), (128, 255)];
+        let pads: Vec<u8> = vec![1, 2, 3, 5, 6, 7];
+        let n = ops.len() * pads.len();
+        v.push(Family {
+            name: "Q7-overhang",
+            what: "the small grid with the backdrop cel, the source cel or both one pixel larger than the canvas on the top and left at offset (-1,-1) (and optionally two pixels larger on the bottom and right), junk pixels outside the canvas, x 4 opacity pairs: the on-canvas pixels are the same, so must the result be".into(),
+            n,
+            modes: all.clone(),
+            build: Box::new(move |i| {
+                let (b, s) = small_grid();
+                let (lo, co) = ops[i % ops.len()];
+                Spec { w: 72, h: 72, b, s, lo, co, via_tilemap: false, flags: 3, pad: pads[i / ops.len()] }
             }),
         });
     }
@@ -282,7 +330,7 @@ pub fn families(tier: Tier) -> Vec<Family> {
             modes: separable.clone(),
             build: Box::new(move |i| {
                 let (b, s) = channel_grid((i >> 8) as u8, i as u8);
-                Spec { w: 256, h: 256, b, s, lo: 255, co: 255, via_tilemap: false, flags: 3 }
+                Spec { w: 256, h: 256, b, s, lo: 255, co: 255, via_tilemap: false, flags: 3, pad: 0 }
             }),
         });
         // T2: layer opacity sweep x Q1
@@ -298,9 +346,9 @@ pub fn families(tier: Tier) -> Vec<Family> {
                     let (ba, sa) = p[i % p.len()];
                     let (b, s) = channel_grid(ba, sa);
                     if o % 8 == 3 {
-                        Spec { w: 256, h: 256, b, s, lo: 255, co: o, via_tilemap: false, flags: 3 }
+                        Spec { w: 256, h: 256, b, s, lo: 255, co: o, via_tilemap: false, flags: 3, pad: 0 }
                     } else {
-                        Spec { w: 256, h: 256, b, s, lo: o, co: 255, via_tilemap: false, flags: 3 }
+                        Spec { w: 256, h: 256, b, s, lo: o, co: 255, via_tilemap: false, flags: 3, pad: 0 }
                     }
                 }),
             });
@@ -323,7 +371,7 @@ pub fn families(tier: Tier) -> Vec<Family> {
                         s.push(px(((sc >> 8) * 17) as u8, (((sc >> 4) & 15) * 17) as u8, ((sc & 15) * 17) as u8, sa));
                     }
                 }
-                Spec { w: 256, h: 256, b, s, lo: 255, co: 255, via_tilemap: false, flags: 3 }
+                Spec { w: 256, h: 256, b, s, lo: 255, co: 255, via_tilemap: false, flags: 3, pad: 0 }
             }),
         });
         v.push(Family {
@@ -351,7 +399,7 @@ pub fn families(tier: Tier) -> Vec<Family> {
                         }
                     }
                 }
-                Spec { w: 256, h: 256, b, s, lo: 255, co: 255, via_tilemap: false, flags: 3 }
+                Spec { w: 256, h: 256, b, s, lo: 255, co: 255, via_tilemap: false, flags: 3, pad: 0 }
             }),
         });
         // T4: all 65,536 opacity pairs for Normal and Multiply
@@ -362,7 +410,7 @@ pub fn families(tier: Tier) -> Vec<Family> {
             modes: vec![0, 1],
             build: Box::new(move |i| {
                 let (b, s) = small_grid();
-                Spec { w: 72, h: 72, b, s, lo: (i >> 8) as u8, co: i as u8, via_tilemap: false, flags: 3 }
+                Spec { w: 72, h: 72, b, s, lo: (i >> 8) as u8, co: i as u8, via_tilemap: false, flags: 3, pad: 0 }
             }),
         });
     }
